@@ -6,32 +6,28 @@
   ESC-free, and (when the size is the one last rendered at and the cache is non-empty) every row from the origin down
   shows what the cache says.
 
-  C07_full_statement   the property for ONE render from any related state, all arrays: (a)+(b) `full` afterwards is
-      `full` before cut at the window's first row, followed by the array's rows (padded) and blanks — so content above
-      the window only ever moves up into scrollback and is never altered; (c) scrollback grew by exactly
-      max 0 (len array - rows available); (d) returned = rows pushed off the top; (e) new origin; (f) cursor on the cell
-      cursor_pos designates; (g) `Rel` again.   STATED, not proved as a whole (see below).
-  C07_accounting       proved for ALL arrays, at the level of the model's outputs: returned value (d), new origin (e),
-      `_last_cursor_row` and the final cursor move (f), and the number of line feeds emitted (c) are exactly the
-      stated functions of (len array, rows available, origin).
-  C07_render_fits_partial   proved: the whole of (a)-(g) on the terminal spec for every array that FITS below the origin
-      (no scroll): rows above the origin and the scrollback are untouched, rows from the origin show the array, the rest
-      is blank, 0 is returned, the origin stays, the cursor is on (origin + row, col), `Rel` holds again.
-  C07_history_fits_partial  by induction: any sequence of fitting renders.
-  C07_scroll_step_partial / C07_scroll_iter_partial   proved: on the terminal spec one `scroll_down` (decsc, cup 1000000 0,
-      lf, decrc) on the main screen appends the top row to the scrollback, moves every row up, leaves a blank bottom
-      row and restores cursor/pending-wrap/graphic state (needs h <= 1000001: the constant in the code); followed by
-      the write on the bottom row, the bottom row shows the line.  So each iteration appends exactly one row to
-      `full` and alters nothing above.
-  Missing for the full statement: the induction gluing these iterations to the fitting part (the loop invariant
-  "`full` = old prefix ++ array rows so far" in list form) and coherence of the re-keyed cache (`k-1`) for (g).
-  The correspondence check (props/c07.py) covers that part on every run: the model's operations equal the real
-  writes and the oracle checks (a)-(g) on histories with scrolling.
+  C07_render   (PROVED, full strength) one render from any related state, ALL arrays; the clauses are the fields of
+      `C07.RenderPost`: (a)+(b) `shown`: `full` afterwards is `full` before cut at the window's first row, followed by the
+      array's rows (padded) and blanks — so content above the window only ever moves up into scrollback and is never
+      altered; (c) `scrolled`: scrollback grew by exactly max 0 (len array - rows available); (d) `returned` = rows
+      pushed off the top; (e) `origin`; (f) `cursorRow/cursorCol/noPendingWrap/lastRow`: cursor on the cell cursor_pos
+      designates and `_last_cursor_row` equal to the terminal's cursor row; (g) `rel`: `Rel` again.
+  C07_history  (PROVED) any sequence of renders: `Rel` is maintained, and everything above the window's first row at the
+      start (scrollback and screen rows) is still there unaltered afterwards.
+  C07_enter    (PROVED) `__enter__`: the terminal's own answer to ESC[6n, parsed by get_cursor_position (C18_parse with
+      the decimal round trip C18_decimal), makes top_usable_row the terminal's cursor row.
+  C07_exit     (PROVED) `__exit__` (keep_last_line on/off) alters only rows from the cursor row down (below it with
+      keep_last_line); on the bottom row with keep_last_line the screen scrolls one line and nothing is lost.
+  C07_accounting, C07_render_fits, C07_history_fits, C07_scroll_step,
+  C07_scroll_iter: the building blocks proved first (model-level accounting for all arrays, the fitting case,
+      one scroll_down / one loop iteration on the terminal spec); kept, they are now special cases of the above.
 
-  Hypotheses: array rows ESC-free and at most as wide as the terminal (the docstring: wider rows are "rendered anyway");
+  Hypotheses: the terminal has at most 1000001 rows (`t.location(x=0, y=1000000)` must reach the bottom row); array rows
+  ESC-free and at most as wide as the terminal (the docstring: wider rows are "rendered anyway");
   cursor_pos designates a cell of the array; default background when the render starts.
 -/
 import Curtsies.Proofs.Window
+import Curtsies.Properties.C18
 namespace Curtsies
 open Window Spec Spec.Terminal
 
@@ -63,27 +59,6 @@ def lfCount (ops : List TermOp) : Nat := (ops.filter isLf).length
 
 end C07
 open C07
-
-/-- The property for one render, at full strength (all arrays, all related states). -/
-def C07_full_statement : Prop :=
-  ∀ (win : CAWin) (t : Term) (arr : List FmtStr) (pos : Nat × Nat),
-    Rel win t → t.g.bg = none → (∀ l ∈ arr, EscFree l ∧ len l ≤ t.w) →
-    (pos.1 < arr.length ∨ (arr = [] ∧ pos.1 = 0)) → pos.2 < t.w →
-    let res := renderCursorAware win t.h t.w arr pos
-    let t' := exec t res.2.1
-    let avail := t.h - win.top.toNat
-    let scrolls := arr.length - avail
-    let pushed := scrolls - win.top.toNat
-    full t' = (full t).take (t.scrollback.length + win.top.toNat) ++ arr.map (fun l => padRow t.w (effCells l))
-                ++ List.replicate (avail - arr.length) (padRow t.w []) ∧
-    t'.scrollback.length = t.scrollback.length + scrolls ∧
-    res.2.2 = (pushed : Int) ∧
-    res.1.top = ((win.top.toNat - scrolls : Nat) : Int) ∧
-    t'.r = res.1.top.toNat + pos.1 - pushed ∧ t'.c = pos.2 ∧ t'.pw = false ∧
-    res.1.lastCursorRow = some (t'.r : Int) ∧
-    t'.cursorVisible = (if win.hideCursor then t.cursorVisible else true) ∧
-    t'.h = t.h ∧ t'.w = t.w ∧ t'.g.bg = none ∧
-    Rel res.1 t'
 
 theorem renderCursorAware_eq (win : CAWin) (h w : Nat) (arr : List FmtStr) (pos : Nat × Nat) :
     renderCursorAware win h w arr pos =
@@ -217,7 +192,7 @@ theorem C07_accounting (win : CAWin) (h w : Nat) (arr : List FmtStr) (pos : Nat 
 
 /-! ### the render that fits (no scroll), on the terminal spec -/
 
-theorem C07_render_fits_partial (win : CAWin) (t : Term) (arr : List FmtStr) (pos : Nat × Nat)
+theorem C07_render_fits (win : CAWin) (t : Term) (arr : List FmtStr) (pos : Nat × Nat)
     (hrel : Rel win t) (hbg : t.g.bg = none) (hrows : ∀ l ∈ arr, EscFree l ∧ len l ≤ t.w)
     (hfits : arr.length ≤ t.h - win.top.toNat)
     (hpos : (pos.1 < arr.length ∨ (arr = [] ∧ pos.1 = 0)) ∧ pos.2 < t.w) :
@@ -384,7 +359,7 @@ def C07.ValidFits : CAWin → Term → List (List FmtStr × (Nat × Nat)) → Pr
 
 /-- Over any sequence of renders that fit below the window's origin: the relation is maintained, the origin never
     moves, nothing scrolls, and every cell above the origin keeps its content throughout. -/
-theorem C07_history_fits_partial (steps : List (List FmtStr × (Nat × Nat))) :
+theorem C07_history_fits (steps : List (List FmtStr × (Nat × Nat))) :
     ∀ (win : CAWin) (t : Term), Rel win t → t.g.bg = none → C07.ValidFits win t steps →
       Rel (C07.run win t steps).1 (C07.run win t steps).2 ∧ (C07.run win t steps).2.g.bg = none ∧
       (C07.run win t steps).1.top = win.top ∧ (C07.run win t steps).2.scrollback = t.scrollback ∧
@@ -396,7 +371,7 @@ theorem C07_history_fits_partial (steps : List (List FmtStr × (Nat × Nat))) :
     intro win t hr hb hv
     obtain ⟨arr, pos⟩ := st
     obtain ⟨h1, h2, h3, h4⟩ := hv
-    have r := C07_render_fits_partial win t arr pos hr hb h1 h2 h3
+    have r := C07_render_fits win t arr pos hr hb h1 h2 h3
     obtain ⟨ra, rsb, _, _, rtop, _, _, _, _, _, rh, _, rbg, rrel⟩ := r
     obtain ⟨i1, i2, i3, i4, i5, i6⟩ := ih _ _ rrel rbg h4
     refine ⟨i1, i2, by rw [C07.run, i3, rtop], by rw [C07.run, i4, rsb], by rw [C07.run, i5, rh], ?_⟩
@@ -413,7 +388,7 @@ example : Rel { top := 1 } { h := 3, w := 3, r := 1, grid := fun r _ => if r = 0
 /-- One `scroll_down` on the terminal spec (main screen, default background, at most 1000001 rows — the constant in
     `t.location(x=0, y=1000000)`): the top row goes to scrollback, every row moves up, the bottom row is blank, and
     cursor, pending wrap and graphic state are exactly as before.  In terms of `full`: one blank row is appended. -/
-theorem C07_scroll_step_partial (t : Term) (hh : 0 < t.h) (hmax : t.h ≤ 1000001) (hmain : t.alt = none)
+theorem C07_scroll_step (t : Term) (hh : 0 < t.h) (hmax : t.h ≤ 1000001) (hmain : t.alt = none)
     (hbg : t.g.bg = none) (hr : t.r < t.h) (hc : t.c < t.w) :
     (exec t scrollDown).scrollback = t.scrollback ++ [t.row 0] ∧
     (∀ r c, (exec t scrollDown).grid r c = if r + 1 < t.h then t.grid (r + 1) c else blank) ∧
@@ -430,14 +405,14 @@ theorem C07_scroll_step_partial (t : Term) (hh : 0 < t.h) (hmax : t.h ≤ 100000
 /-- One iteration of the scroll loop on the terminal spec: `scroll_down`, move to the bottom row, write the line
     (no clear needed: the row just scrolled in is blank).  Every row moves up one, the old top row is appended to the
     scrollback, and the bottom row shows the line. -/
-theorem C07_scroll_iter_partial (t : Term) (line : FmtStr) (hh : 0 < t.h) (hmax : t.h ≤ 1000001) (hmain : t.alt = none)
+theorem C07_scroll_iter (t : Term) (line : FmtStr) (hh : 0 < t.h) (hmax : t.h ≤ 1000001) (hmain : t.alt = none)
     (hbg : t.g.bg = none) (hr : t.r < t.h) (hc : t.c < t.w) (hesc : EscFree line) (hlen : len line ≤ t.w) :
     let t' := exec t (scrollDown ++ [.cup ((t.h : Int) - 1).toNat 0, .putStr (render line)])
     t'.scrollback = t.scrollback ++ [t.row 0] ∧
     (∀ r c, r < t.h → c < t.w → t'.grid r c = if r + 1 < t.h then t.grid (r + 1) c else (effCells line)[c]?.getD blank) ∧
     t'.h = t.h ∧ t'.w = t.w ∧ t'.alt = t.alt ∧ t'.cursorVisible = t.cursorVisible ∧ t'.g.bg = none := by
   intro t'
-  obtain ⟨s1, s2, _, _, _, _, s7, s8, s9, s10⟩ := C07_scroll_step_partial t hh hmax hmain hbg hr hc
+  obtain ⟨s1, s2, _, _, _, _, s7, s8, s9, s10⟩ := C07_scroll_step t hh hmax hmain hbg hr hc
   have e : t' = exec (exec t scrollDown) [.cup (t.h - 1) 0, .put (effCells line) {}] := by
     show exec t _ = _
     rw [exec_append, putStr_render line hesc]
@@ -471,5 +446,613 @@ theorem C07_scroll_iter_partial (t : Term) (line : FmtStr) (hh : 0 < t.h) (hmax 
     by_cases h2 : c < (effCells line).length
     · rw [if_pos (by omega)]; simp
     · rw [if_neg (by omega), List.getElem?_eq_none (Nat.le_of_not_lt h2)]; rfl
+
+
+/-! ### list-level lemmas for the full statement -/
+
+namespace C07
+
+/-- `scroll_down` without the cursor claims (no assumption on where the cursor is) -/
+theorem scrollStep (t : Term) (hh : 0 < t.h) (hmax : t.h ≤ 1000001) (hmain : t.alt = none) (hbg : t.g.bg = none) :
+    (exec t scrollDown).scrollback = t.scrollback ++ [t.row 0] ∧
+    (∀ r c, (exec t scrollDown).grid r c = if r + 1 < t.h then t.grid (r + 1) c else blank) ∧
+    (exec t scrollDown).g = t.g ∧ (exec t scrollDown).h = t.h ∧ (exec t scrollDown).w = t.w ∧
+    (exec t scrollDown).alt = t.alt ∧ (exec t scrollDown).cursorVisible = t.cursorVisible := by
+  have a1 : min 1000000 (t.h - 1) = t.h - 1 := by omega
+  have a2 : ¬ (t.h - 1 + 1 < t.h) := by omega
+  have a5 : (' ', ({ bg := t.g.bg } : Eff)) = blank := by rw [hbg]; rfl
+  simp [scrollDown, Term.step, Term.index, Term.scrollUp, Term.erased, Term.row, a1, a2, a5, hmain]
+
+theorem row_congr (t t' : Term) (r r' : Nat) (hw : t'.w = t.w) (h : ∀ c, c < t.w → t'.grid r' c = t.grid r c) :
+    t'.row r' = t.row r := by
+  unfold Term.row
+  rw [hw]
+  apply List.map_congr_left
+  intro c hc
+  exact h c (List.mem_range.mp hc)
+
+theorem row_eq_pad (t : Term) (r : Nat) (cs : List TCell) (h : Shows t r cs) : t.row r = padRow t.w cs := by
+  unfold Term.row padRow
+  apply List.map_congr_left
+  intro c hc
+  exact h c (List.mem_range.mp hc)
+
+theorem shows_of_row (t : Term) (r : Nat) (cs : List TCell) (h : t.row r = padRow t.w cs) : Shows t r cs := by
+  intro c hc
+  have := congrArg (fun l => l[c]?) h
+  simp [Term.row, padRow, hc] at this
+  exact this
+
+theorem full_length (t : Term) : (full t).length = t.scrollback.length + t.h := by
+  simp [full, Term.screen]
+
+/-- list form of one iteration: one row is appended to `full` -/
+theorem full_iter (t t' : Term) (cs : List TCell) (hh : 0 < t.h) (h' : t'.h = t.h) (w' : t'.w = t.w)
+    (hsb : t'.scrollback = t.scrollback ++ [t.row 0])
+    (hg : ∀ r c, r < t.h → c < t.w → t'.grid r c = if r + 1 < t.h then t.grid (r + 1) c else cs[c]?.getD blank) :
+    full t' = full t ++ [padRow t.w cs] := by
+  obtain ⟨n, hn⟩ : ∃ n, t.h = n + 1 := ⟨t.h - 1, by omega⟩
+  have hrows : ∀ r, r < n → t'.row r = t.row (r + 1) := by
+    intro r hr
+    apply row_congr t t' (r + 1) r w'
+    intro c hc
+    rw [hg r c (by omega) hc, if_pos (by omega)]
+  have hlast : t'.row n = padRow t.w cs := by
+    rw [← w']
+    apply row_eq_pad
+    intro c hc
+    rw [hg n c (by omega) (by rw [← w']; exact hc), if_neg (by omega)]
+  have e1 : List.map t'.row (List.range (n + 1)) = List.map t'.row (List.range n) ++ [t'.row n] := by
+    rw [List.range_succ]; simp
+  have e2 : List.map t.row (List.range (n + 1)) = t.row 0 :: List.map (fun r => t.row (r + 1)) (List.range n) := by
+    rw [List.range_succ_eq_map]; simp [List.map_map, Function.comp_def]
+  have e3 : List.map t'.row (List.range n) = List.map (fun r => t.row (r + 1)) (List.range n) := by
+    apply List.map_congr_left
+    intro r hr
+    exact hrows r (List.mem_range.mp hr)
+  unfold full Term.screen
+  rw [hsb, h', hn, e1, e2, e3, hlast]
+  simp
+
+/-- the cache after `{k - 1: v for k, v in current.items()}` -/
+theorem get_shift (cur : RowCache) (row : Int) :
+    RowCache.get (cur.map fun (k, v) => (k - 1, v)) row = cur.get (row + 1) := by
+  unfold RowCache.get
+  induction cur with
+  | nil => rfl
+  | cons p ps ih =>
+    obtain ⟨k, v⟩ := p
+    simp only [List.map_cons, List.lookup_cons]
+    by_cases h : row = k - 1
+    · have h2 : row + 1 = k := by omega
+      simp [h, h2]
+    · have h2 : ¬ (row + 1 = k) := by omega
+      have e1 : (row == k - 1) = false := by simp [h]
+      have e2 : (row + 1 == k) = false := by simp [h2]
+      rw [e1, e2]; exact ih
+
+/-- one iteration of the scroll loop, wherever the cursor is -/
+theorem scrollIter (t : Term) (line : FmtStr) (hh : 0 < t.h) (hmax : t.h ≤ 1000001) (hmain : t.alt = none)
+    (hbg : t.g.bg = none) (hesc : EscFree line) (hlen : len line ≤ t.w) :
+    let t' := exec t (scrollDown ++ [.cup ((t.h : Int) - 1).toNat 0, .putStr (render line)])
+    t'.scrollback = t.scrollback ++ [t.row 0] ∧
+    (∀ r c, r < t.h → c < t.w → t'.grid r c = if r + 1 < t.h then t.grid (r + 1) c else (effCells line)[c]?.getD blank) ∧
+    t'.h = t.h ∧ t'.w = t.w ∧ t'.alt = t.alt ∧ t'.cursorVisible = t.cursorVisible ∧ t'.g.bg = none := by
+  intro t'
+  obtain ⟨s1, s2, _, s7, s8, s9, s10⟩ := scrollStep t hh hmax hmain hbg
+  have e : t' = exec (exec t scrollDown) [.cup (t.h - 1) 0, .put (effCells line) {}] := by
+    show exec t _ = _
+    rw [exec_append, putStr_render line hesc]
+    have : ((t.h : Int) - 1).toNat = t.h - 1 := by omega
+    rw [this]
+  generalize exec t scrollDown = t1 at s1 s2 s7 s8 s9 s10 e
+  let t2 : Term := { t1 with r := t.h - 1, c := 0, pw := false }
+  have e1 : t1.step (.cup (t.h - 1) 0) = t2 := by
+    have a : min (t.h - 1) (t1.h - 1) = t.h - 1 := by rw [s7]; omega
+    simp [Term.step, a, t2]
+  obtain ⟨f, g, r, gr, _⟩ := putCells (effCells line) t2 rfl (by
+    show 0 + (effCells line).length ≤ t1.w
+    rw [effCells_length, s8]; omega)
+  have e2 : t' = { (effCells line).foldl Term.putCell t2 with g := {} } := by
+    rw [e]; simp only [exec_cons, exec_nil, e1]; rfl
+  rw [e2]
+  refine ⟨by show ((effCells line).foldl Term.putCell t2).scrollback = _; rw [f.sb]; exact s1, ?_,
+    by show ((effCells line).foldl Term.putCell t2).h = _; rw [f.h]; exact s7,
+    by show ((effCells line).foldl Term.putCell t2).w = _; rw [f.w]; exact s8,
+    by show ((effCells line).foldl Term.putCell t2).alt = _; rw [f.alt]; exact s9,
+    by show ((effCells line).foldl Term.putCell t2).cursorVisible = _; rw [f.vis]; exact s10, rfl⟩
+  intro r' c hrh hcw
+  show ((effCells line).foldl Term.putCell t2).grid r' c = _
+  rw [gr]
+  show (if r' = t.h - 1 ∧ 0 ≤ c ∧ c < 0 + (effCells line).length then (effCells line)[c - 0]?.getD blank else t1.grid r' c) = _
+  rw [s2]
+  by_cases h1 : r' + 1 < t.h
+  · have h2 : ¬ (r' = t.h - 1 ∧ 0 ≤ c ∧ c < 0 + (effCells line).length) := by omega
+    simp only [h1, h2, if_true, if_false]
+  · simp only [if_neg h1]
+    by_cases h2 : c < (effCells line).length
+    · rw [if_pos (by omega)]; simp
+    · rw [if_neg (by omega), List.getElem?_eq_none (Nat.le_of_not_lt h2)]; rfl
+
+/-- every screen row from `top` down shows what the cache being built says -/
+def RowsShow (t : Term) (cur : RowCache) (top : Int) : Prop :=
+  ∀ row : Nat, top ≤ (row : Int) → row < t.h → Shows t row (cacheCells cur (row : Int))
+
+theorem scrollLoop_spec (h : Nat) :
+    ∀ (lines : List FmtStr) (top off : Int) (cur : RowCache) (t : Term),
+      t.h = h → 0 < h → h ≤ 1000001 → t.alt = none → t.g.bg = none → 0 ≤ top →
+      (∀ l ∈ lines, EscFree l ∧ len l ≤ t.w) → CacheEsc cur → RowsShow t cur top →
+      full (exec t (scrollLoop h lines top off cur).2.2.2) = full t ++ lines.map (fun l => padRow t.w (effCells l)) ∧
+      (exec t (scrollLoop h lines top off cur).2.2.2).h = t.h ∧
+      (exec t (scrollLoop h lines top off cur).2.2.2).w = t.w ∧
+      (exec t (scrollLoop h lines top off cur).2.2.2).alt = t.alt ∧
+      (exec t (scrollLoop h lines top off cur).2.2.2).cursorVisible = t.cursorVisible ∧
+      (exec t (scrollLoop h lines top off cur).2.2.2).g.bg = none ∧
+      (exec t (scrollLoop h lines top off cur).2.2.2).scrollback.length = t.scrollback.length + lines.length ∧
+      CacheEsc (scrollLoop h lines top off cur).2.2.1 ∧
+      RowsShow (exec t (scrollLoop h lines top off cur).2.2.2) (scrollLoop h lines top off cur).2.2.1
+        (scrollLoop h lines top off cur).1 := by
+  intro lines
+  induction lines with
+  | nil =>
+    intro top off cur t _ _ _ _ hbg _ _ hesc hrs
+    exact ⟨by simp [scrollLoop], rfl, rfl, rfl, rfl, hbg, rfl, hesc, hrs⟩
+  | cons line rest ih =>
+    intro top off cur t hth hh hmax hmain hbg htop hl hesc hrs
+    subst hth
+    rw [scrollLoop_cons]
+    simp only []
+    rw [exec_append]
+    have hline := hl line List.mem_cons_self
+    obtain ⟨i1, i2, i3, i4, i5, i6, i7⟩ := scrollIter t line hh hmax hmain hbg hline.1 hline.2
+    have hfull := full_iter t _ (effCells line) hh i3 i4 i1 i2
+    generalize exec t (scrollDown ++ [.cup ((t.h : Int) - 1).toNat 0, .putStr (render line)]) = t1
+      at i1 i2 i3 i4 i5 i6 i7 hfull
+    generalize htop1 : (if top > 0 then top - 1 else top) = top1
+    have htop1' : 0 ≤ top1 ∧ top - 1 ≤ top1 := by
+      rw [← htop1]; split <;> omega
+    generalize hcur1 : RowCache.set (cur.map fun (k, v) => (k - 1, v)) ((t.h : Int) - 1) (some line) = cur1
+    have hget1 : ∀ row : Int, cur1.get row = if row = (t.h : Int) - 1 then some (some line) else cur.get (row + 1) := by
+      intro row; rw [← hcur1, get_set, get_shift]
+    have hesc1 : CacheEsc cur1 := by
+      intro row l hg
+      rw [hget1] at hg
+      by_cases hr : row = (t.h : Int) - 1
+      · rw [if_pos hr] at hg; cases hg; exact hline.1
+      · rw [if_neg hr] at hg; exact hesc _ _ hg
+    have hrs1 : RowsShow t1 cur1 top1 := by
+      intro row h1 h2
+      rw [i3] at h2
+      unfold cacheCells
+      rw [hget1]
+      by_cases hr : row + 1 < t.h
+      · rw [if_neg (by omega)]
+        have e : ((row : Int) + 1) = ((row + 1 : Nat) : Int) := by omega
+        rw [e]
+        have := hrs (row + 1) (by omega) hr
+        unfold cacheCells at this
+        intro c hc
+        rw [i4] at hc
+        rw [i2 row c h2 hc, if_pos hr]
+        exact this c hc
+      · rw [if_pos (by omega)]
+        intro c hc
+        rw [i4] at hc
+        rw [i2 row c h2 hc, if_neg hr]
+    obtain ⟨j1, j2, j3, j4, j5, j6, j7, j8, j9⟩ := ih top1 (if top > 0 then off else off + 1) cur1 t1 i3 hh hmax
+      (by rw [i5]; exact hmain) i7 htop1'.1 (fun l hl' => by rw [i4]; exact hl l (List.mem_cons_of_mem _ hl')) hesc1 hrs1
+    refine ⟨?_, by rw [j2, i3], by rw [j3, i4], by rw [j4, i5], by rw [j5, i6], j6, ?_, j8, j9⟩
+    · rw [j1, hfull, i4]; simp
+    · rw [j7, i1]; simp; omega
+
+
+/-- list form of the part that fits: above row `k` nothing changed, from row `k` the lines `L`, then blanks -/
+theorem full_fit (t t2 : Term) (k : Nat) (L : List FmtStr) (hk : k + L.length ≤ t.h)
+    (h' : t2.h = t.h) (w' : t2.w = t.w) (hsb : t2.scrollback = t.scrollback)
+    (habove : ∀ r c, r < k → t2.grid r c = t.grid r c)
+    (hshow : ∀ i, k + i < t.h → Shows t2 (k + i) (match L[i]? with | some l => effCells l | none => [])) :
+    full t2 = (full t).take (t.scrollback.length + k) ++ L.map (fun l => padRow t.w (effCells l)) ++
+      List.replicate (t.h - k - L.length) (padRow t.w []) := by
+  have hscreen : t2.screen = t.screen.take k ++ L.map (fun l => padRow t.w (effCells l)) ++
+      List.replicate (t.h - k - L.length) (padRow t.w []) := by
+    apply List.ext_getElem?
+    intro j
+    unfold Term.screen
+    rw [h']
+    by_cases h1 : j < k
+    · have : t2.row j = t.row j := row_congr t t2 j j w' (fun c _ => habove j c h1)
+      have hlen : (List.take k (List.map t.row (List.range t.h))).length = k := by simp; omega
+      rw [List.append_assoc, List.getElem?_append_left (by rw [hlen]; exact h1)]
+      simp [List.getElem?_take, h1, this, (by omega : j < t.h)]
+    · by_cases h2 : j < k + L.length
+      · obtain ⟨i, rfl⟩ : ∃ i, j = k + i := ⟨j - k, by omega⟩
+        have hi : i < L.length := by omega
+        have := row_eq_pad t2 (k + i) _ (hshow i (by omega))
+        rw [List.getElem?_eq_getElem hi, w'] at this
+        have hlen : (List.take k (List.map t.row (List.range t.h))).length = k := by simp; omega
+        rw [List.append_assoc, List.getElem?_append_right (by rw [hlen]; omega), hlen,
+          List.getElem?_append_left (by simp; omega)]
+        simp [(by omega : k + i < t.h), this, hi]
+      · by_cases h3 : j < t.h
+        · obtain ⟨i, rfl⟩ : ∃ i, j = k + i := ⟨j - k, by omega⟩
+          have := row_eq_pad t2 (k + i) _ (hshow i (by omega))
+          rw [List.getElem?_eq_none (by omega), w'] at this
+          have hlen : (List.take k (List.map t.row (List.range t.h)) ++ L.map (fun l => padRow t.w (effCells l))).length
+              = k + L.length := by simp; omega
+          rw [List.getElem?_append_right (by rw [hlen]; omega), hlen]
+          simp [h3, this, List.getElem?_replicate]
+          omega
+        · have hlen : (List.take k (List.map t.row (List.range t.h)) ++ L.map (fun l => padRow t.w (effCells l)) ++
+              List.replicate (t.h - k - L.length) (padRow t.w [])).length = t.h := by simp; omega
+          rw [List.getElem?_eq_none (by simp; omega), List.getElem?_eq_none (by rw [hlen]; omega)]
+  have e : (t.scrollback ++ t.screen).take (t.scrollback.length + k) = t.scrollback ++ t.screen.take k := by
+    simp [List.take_append]
+    exact List.take_of_length_le (by omega)
+  unfold full
+  rw [hsb, hscreen, e]
+  simp [List.append_assoc]
+
+end C07
+
+
+/-! ### the full statement for one render -/
+
+/-- clauses (a)-(g) of the property for one render with result `res = (window after, operations written, returned)` -/
+structure C07.RenderPost (win : CAWin) (t : Term) (arr : List FmtStr) (pos : Nat × Nat)
+    (res : CAWin × List TermOp × Int) : Prop where
+  /-- (a)+(b): everything above the window's first row is still there, unaltered (in the scrollback or on screen);
+      from there on the terminal shows exactly the array, then blank rows -/
+  shown : full (exec t res.2.1) = (full t).take (t.scrollback.length + win.top.toNat) ++
+      arr.map (fun l => padRow t.w (effCells l)) ++ List.replicate (t.h - win.top.toNat - arr.length) (padRow t.w [])
+  /-- (c) it scrolled exactly as many lines as the array does not fit -/
+  scrolled : (exec t res.2.1).scrollback.length = t.scrollback.length + (arr.length - (t.h - win.top.toNat))
+  /-- (d) returned = array rows pushed off the top of the screen -/
+  returned : res.2.2 = ((arr.length - (t.h - win.top.toNat) - win.top.toNat : Nat) : Int)
+  /-- (e) the new origin -/
+  origin : res.1.top = ((win.top.toNat - (arr.length - (t.h - win.top.toNat)) : Nat) : Int)
+  /-- (f) the cursor is on the cell cursor_pos designates (row 0 if that row was pushed off) -/
+  cursorRow : (exec t res.2.1).r = res.1.top.toNat + pos.1 - (arr.length - (t.h - win.top.toNat) - win.top.toNat)
+  cursorCol : (exec t res.2.1).c = pos.2
+  noPendingWrap : (exec t res.2.1).pw = false
+  lastRow : res.1.lastCursorRow = some ((exec t res.2.1).r : Int)
+  visible : (exec t res.2.1).cursorVisible = (if win.hideCursor then t.cursorVisible else true)
+  height : (exec t res.2.1).h = t.h
+  width : (exec t res.2.1).w = t.w
+  bg : (exec t res.2.1).g.bg = none
+  /-- (g) -/
+  rel : Rel res.1 (exec t res.2.1)
+
+theorem C07.full_congr (t t' : Term) (h : t'.h = t.h) (w : t'.w = t.w) (sb : t'.scrollback = t.scrollback)
+    (g : t'.grid = t.grid) : full t' = full t := by
+  simp [full, Term.screen, Term.row, h, w, sb, g]
+
+theorem C07_render (win : CAWin) (t : Term) (arr : List FmtStr) (pos : Nat × Nat)
+    (hrel : Rel win t) (hbg : t.g.bg = none) (hmax : t.h ≤ 1000001)
+    (hrows : ∀ l ∈ arr, EscFree l ∧ len l ≤ t.w)
+    (hpos : (pos.1 < arr.length ∨ (arr = [] ∧ pos.1 = 0)) ∧ pos.2 < t.w) :
+    RenderPost win t arr pos (renderCursorAware win t.h t.w arr pos) := by
+  rw [renderCursorAware_eq]
+  simp only []
+  generalize hk : win.top.toNat = k
+  have htopk : win.top = (k : Int) := by have := hrel.top.1; omega
+  have hkh : k < t.h := by have := hrel.top.2; omega
+  generalize hwin0 : (if win.lastH ≠ some t.h ∨ win.lastW ≠ some t.w
+        then ({ win with cache := [], lastH := some t.h, lastW := some t.w } : CAWin) else win) = win0
+  have e1 : win0.top = (k : Int) := by rw [← hwin0, ← htopk]; split <;> rfl
+  have hhide : win0.hideCursor = win.hideCursor := by rw [← hwin0]; split <;> rfl
+  have hsize : win0.lastH = some t.h ∧ win0.lastW = some t.w := by
+    rw [← hwin0]
+    by_cases hc : win.lastH ≠ some t.h ∨ win.lastW ≠ some t.w
+    · rw [if_pos hc]; exact ⟨rfl, rfl⟩
+    · rw [if_neg hc]
+      exact ⟨Classical.not_not.mp fun h => hc (Or.inl h), Classical.not_not.mp fun h => hc (Or.inr h)⟩
+  have hold : CacheEsc win0.cache := by
+    rw [← hwin0]
+    by_cases hc : win.lastH ≠ some t.h ∨ win.lastW ≠ some t.w
+    · rw [if_pos hc]; intro _ _ h; simp [get_nil] at h
+    · rw [if_neg hc]; exact hrel.esc
+  generalize hpre : exec t (if (!win.hideCursor) = true then [TermOp.hide] else []) = t0
+  have f0 : t0.h = t.h ∧ t0.w = t.w ∧ t0.scrollback = t.scrollback ∧ t0.g = t.g ∧ t0.grid = t.grid ∧
+      t0.alt = t.alt ∧ t0.cursorVisible = (if win.hideCursor then t.cursorVisible else false) := by
+    rw [← hpre]; cases win.hideCursor <;> simp [Term.step]
+  obtain ⟨f0h, f0w, f0sb, f0g, f0grid, f0alt, f0vis⟩ := f0
+  have hcoh0 : Coherent win0.cache t0 k := by
+    rw [← hwin0]
+    by_cases hc : win.lastH ≠ some t.h ∨ win.lastW ≠ some t.w
+    · rw [if_pos hc]; intro h; exact absurd rfl h
+    · rw [if_neg hc]
+      have := hrel.coh (Classical.not_not.mp fun h => hc (Or.inl h)) (Classical.not_not.mp fun h => hc (Or.inr h))
+      rw [hk] at this
+      intro hne row h1 h2
+      exact Shows.congr f0w (fun c => by rw [f0grid]) (this hne row h1 (by rw [← f0h]; exact h2))
+  -- the row lists; `s` rows are shared between the array and the rows available
+  have hrows' : pyRange win0.top (t.h : Int) = intRows k (t.h - k) := by rw [e1, pyRange_eq]
+  rw [hrows', intRows_length]
+  generalize hs : min arr.length (t.h - k) = s
+  have hs1 : s ≤ arr.length := by omega
+  have hs2 : s ≤ t.h - k := by omega
+  have hs3 : s = arr.length ∨ (s = t.h - k ∧ t.h - k ≤ arr.length) := by omega
+  rw [intRows_take k (t.h - k) s hs2, intRows_drop]
+  have hLlen : (arr.take s).length = s := by rw [List.length_take]; omega
+  have hL : ∀ l ∈ arr.take s, EscFree l ∧ len l ≤ t.w := fun l hl => hrows l (List.mem_of_mem_take hl)
+  have p1 := contentLoop_spec win0.cache t.w id hold (arr.take s) k s [] t0 f0w (by rw [hLlen]; exact Nat.le_refl _)
+    (by rw [f0h, hLlen]; omega) (by rw [f0g]; exact hbg) hL hcoh0
+  generalize (contentLoop win0.cache t.w id (intRows k s) (arr.take s) []) = c1 at p1
+  generalize ht1 : exec t0 c1.2 = t1 at p1
+  have hcoh1 : Coherent win0.cache t1 (k + s) := by
+    intro hne row h1 h2
+    have := hcoh0 hne row (by omega) (by rw [← p1.frame.h]; exact h2)
+    exact Shows.congr p1.frame.w (p1.others row (Or.inr (by rw [hLlen]; exact h1))) this
+  have p2 := blankLoop_spec win0.cache (t.h - k - s) (k + s) c1.1 t1
+    (fun _ => by rw [p1.frame.h, f0h]; omega) p1.bg hcoh1
+  generalize (blankLoop win0.cache (intRows (k + s) (t.h - k - s)) c1.1) = c2 at p2
+  generalize ht2 : exec t1 c2.2 = t2 at p2
+  have h2h : t2.h = t.h := by rw [p2.frame.h, p1.frame.h, f0h]
+  have h2w : t2.w = t.w := by rw [p2.frame.w, p1.frame.w, f0w]
+  have h2sb : t2.scrollback = t.scrollback := by rw [p2.frame.sb, p1.frame.sb, f0sb]
+  have h2alt : t2.alt = none := by rw [p2.frame.alt, p1.frame.alt, f0alt]; exact hrel.main
+  have hshow : ∀ i, k + i < t.h → Shows t2 (k + i) (match (arr.take s)[i]? with | some l => effCells l | none => []) := by
+    intro i hi
+    by_cases hin : i < s
+    · have hin' : i < (arr.take s).length := by rw [hLlen]; exact hin
+      rw [List.getElem?_eq_getElem hin']
+      exact Shows.congr p2.frame.w (p2.others (k + i) (Or.inl (by omega))) (p1.shows i hin')
+    · rw [List.getElem?_eq_none (by rw [hLlen]; omega)]
+      exact p2.shows (k + i) (by omega) (by omega)
+  have hcacheIn : ∀ i (hi : i < (arr.take s).length), c2.1.get ((k + i : Nat) : Int) = some (some (arr.take s)[i]) := by
+    intro i hi
+    rw [p2.cacheOut _ (Or.inl (by rw [hLlen] at hi; omega))]
+    exact p1.cacheIn i hi
+  have hcacheOut : ∀ row : Int, (row < (k : Int) ∨ ((k + s : Nat) : Int) ≤ row) →
+      c2.1.get row = some none ∨ c2.1.get row = none := by
+    intro row hrow
+    have hc1 : c1.1.get row = none := by rw [p1.cacheOut row (by rw [hLlen]; exact hrow)]; rfl
+    by_cases hin : ((k + s : Nat) : Int) ≤ row ∧ row < (t.h : Int)
+    · obtain ⟨r, rfl⟩ : ∃ r : Nat, row = (r : Int) := ⟨row.toNat, by omega⟩
+      rcases p2.cacheIn r (by omega) (by omega) with h | h
+      · exact Or.inl h
+      · exact Or.inr (by rw [h, hc1])
+    · exact Or.inr (by rw [p2.cacheOut row (by omega), hc1])
+  have hesc2 : CacheEsc c2.1 := by
+    intro row l hget
+    by_cases hin : (k : Int) ≤ row ∧ row < ((k + s : Nat) : Int)
+    · obtain ⟨i, rfl⟩ : ∃ i : Nat, row = ((k + i : Nat) : Int) := ⟨(row - k).toNat, by omega⟩
+      have hi : i < (arr.take s).length := by rw [hLlen]; omega
+      rw [hcacheIn i hi] at hget
+      cases hget
+      exact (hL _ (List.getElem_mem hi)).1
+    · rcases hcacheOut row (by omega) with h | h <;> rw [h] at hget <;> cases hget
+  have hrs2 : RowsShow t2 c2.1 (k : Int) := by
+    intro row h1 h2
+    rw [h2h] at h2
+    obtain ⟨i, rfl⟩ : ∃ i, row = k + i := ⟨row - k, by omega⟩
+    have := hshow i h2
+    unfold cacheCells
+    by_cases hi : i < s
+    · have hi' : i < (arr.take s).length := by rw [hLlen]; exact hi
+      rw [hcacheIn i hi']
+      rw [List.getElem?_eq_getElem hi'] at this
+      exact this
+    · rw [List.getElem?_eq_none (by rw [hLlen]; omega)] at this
+      rcases hcacheOut ((k + i : Nat) : Int) (by omega) with h | h <;> rw [h] <;> exact this
+  have hfull2 := full_fit t t2 k (arr.take s) (by rw [hLlen]; omega) h2h h2w h2sb
+    (fun r c hr => by rw [p2.others r (Or.inl (by omega)) c, p1.others r (Or.inl hr) c, f0grid]) hshow
+  rw [hLlen] at hfull2
+  -- the scroll loop
+  have p3 := scrollLoop_spec t.h (arr.drop s) win0.top 0 c2.1 t2 h2h (by omega) hmax h2alt p2.bg (by rw [e1]; omega)
+    (fun l hl => by rw [h2w]; exact hrows l (List.mem_of_mem_drop hl)) hesc2 (by rw [e1]; exact hrs2)
+  have acc := scrollLoop_accounting t.h (arr.drop s) win0.top 0 c2.1 (by rw [e1]; omega)
+  have hdl : (arr.drop s).length = arr.length - (t.h - k) := by rw [List.length_drop]; omega
+  rw [hdl] at p3
+  generalize scrollLoop t.h (arr.drop s) win0.top 0 c2.1 = c3 at p3 acc
+  rw [hdl, e1] at acc
+  obtain ⟨a1, a2, _⟩ := acc
+  obtain ⟨q1, q2, q3, q4, q5, q6, q7, q8, q9⟩ := p3
+  generalize ht3 : exec t2 c3.2.2.2 = t3 at q1 q2 q3 q4 q5 q6 q7 q9
+  have hrow : max 0 ((pos.1 : Int) - c3.2.1 + c3.1) =
+      ((c3.1.toNat + pos.1 - (arr.length - (t.h - k) - k) : Nat) : Int) := by
+    rw [a1, a2]; omega
+  rw [hrow, Int.toNat_natCast]
+  generalize hR : c3.1.toNat + pos.1 - (arr.length - (t.h - k) - k) = R
+  have hRh : R < t.h := by
+    rw [← hR, a1]
+    rcases hpos.1 with h | ⟨h, h'⟩
+    · omega
+    · subst h; simp at *; omega
+  generalize hfin : exec (exec t3 [TermOp.cup R pos.2]) (if (!win0.hideCursor) = true then [TermOp.show] else []) = t4
+  have f4 : t4.h = t3.h ∧ t4.w = t3.w ∧ t4.scrollback = t3.scrollback ∧ t4.g = t3.g ∧ t4.grid = t3.grid ∧
+      t4.alt = t3.alt ∧ t4.r = min R (t3.h - 1) ∧ t4.c = min pos.2 (t3.w - 1) ∧ t4.pw = false ∧
+      t4.cursorVisible = (if win0.hideCursor then t3.cursorVisible else true) := by
+    rw [← hfin]; cases win0.hideCursor <;> simp [Term.step]
+  obtain ⟨f4h, f4w, f4sb, f4g, f4grid, f4alt, f4r, f4c, f4pw, f4vis⟩ := f4
+  have h4r : t4.r = R := by rw [f4r, q2, h2h]; omega
+  have hexec : exec t ((if (!win.hideCursor) = true then [TermOp.hide] else []) ++ c1.2 ++ c2.2 ++ c3.2.2.2 ++
+      [TermOp.cup R pos.2] ++ (if (!win0.hideCursor) = true then [TermOp.show] else [])) = t4 := by
+    rw [exec_append, exec_append, exec_append, exec_append, exec_append, hpre, ht1, ht2, ht3]; exact hfin
+  refine
+    { shown := ?_, scrolled := ?_, returned := ?_, origin := ?_, cursorRow := ?_, cursorCol := ?_,
+      noPendingWrap := ?_, lastRow := ?_, visible := ?_, height := ?_, width := ?_, bg := ?_, rel := ?_ }
+  · dsimp only; rw [hexec, hk]
+    rw [full_congr t3 t4 f4h f4w f4sb f4grid, q1, hfull2, h2w]
+    rcases hs3 with h | ⟨h, h'⟩
+    · subst h
+      simp
+    · have e0 : t.h - k - s = 0 := by omega
+      have e0' : t.h - k - arr.length = 0 := by omega
+      rw [e0, e0']
+      simp only [List.replicate_zero, List.append_nil, List.append_assoc, ← List.map_append, List.take_append_drop]
+  · dsimp only; rw [hexec, hk]
+    rw [f4sb, q7, h2sb]
+  · dsimp only; rw [hk, a2]; omega
+  · dsimp only; rw [hk]; exact a1
+  · dsimp only; rw [hexec, hk]
+    rw [h4r, ← hR]
+  · dsimp only; rw [hexec]
+    rw [f4c, q3, h2w]; have := hpos.2; omega
+  · dsimp only; rw [hexec]; exact f4pw
+  · dsimp only; rw [hexec]
+    rw [h4r]
+  · dsimp only; rw [hexec]
+    rw [f4vis, q5, p2.frame.vis, p1.frame.vis, f0vis, hhide]
+    cases win.hideCursor <;> simp
+  · dsimp only; rw [hexec]
+    rw [f4h, q2, h2h]
+  · dsimp only; rw [hexec]
+    rw [f4w, q3, h2w]
+  · dsimp only; rw [hexec]
+    rw [f4g]; exact q6
+  · dsimp only; rw [hexec]
+    refine ⟨q8, ?_, ?_, ?_⟩
+    · show 0 ≤ c3.1 ∧ c3.1 < (t4.h : Int)
+      rw [f4h, q2, h2h, a1]; omega
+    · show t4.alt = none
+      rw [f4alt, q4]; exact h2alt
+    · intro _ _ _ row hrow1 hrow2
+      simp only at hrow1 hrow2 ⊢
+      rw [f4h] at hrow2
+      exact Shows.congr (t := t3) f4w (fun c => by rw [f4grid]) (q9 row (by omega) hrow2)
+
+
+
+/-! ### histories -/
+
+/-- the property's domain for a sequence of renders: rows ESC-free and no wider than the terminal, cursor_pos on a
+    cell of the array -/
+def C07.ValidSeq : CAWin → Term → List (List FmtStr × (Nat × Nat)) → Prop
+  | _, _, [] => True
+  | win, t, (arr, pos) :: rest =>
+    (∀ l ∈ arr, EscFree l ∧ len l ≤ t.w) ∧ ((pos.1 < arr.length ∨ (arr = [] ∧ pos.1 = 0)) ∧ pos.2 < t.w) ∧
+    C07.ValidSeq (renderCursorAware win t.h t.w arr pos).1 (exec t (renderCursorAware win t.h t.w arr pos).2.1) rest
+
+/-- Over ANY sequence of renders (fitting or scrolling): the relation is maintained (so `C07_render` applies to every
+    render of the history), and everything that was above the window's first row at the start — scrollback and screen
+    rows — is still there, in order and unaltered: it only ever moves up. -/
+theorem C07_history (steps : List (List FmtStr × (Nat × Nat))) :
+    ∀ (win : CAWin) (t : Term), Rel win t → t.g.bg = none → t.h ≤ 1000001 → C07.ValidSeq win t steps →
+      Rel (C07.run win t steps).1 (C07.run win t steps).2 ∧ (C07.run win t steps).2.g.bg = none ∧
+      (C07.run win t steps).2.h = t.h ∧
+      (full (C07.run win t steps).2).take (t.scrollback.length + win.top.toNat) =
+        (full t).take (t.scrollback.length + win.top.toNat) ∧
+      t.scrollback.length + win.top.toNat ≤
+        (C07.run win t steps).2.scrollback.length + (C07.run win t steps).1.top.toNat := by
+  induction steps with
+  | nil => intro win t hr hb _ _; exact ⟨hr, hb, rfl, rfl, Nat.le_refl _⟩
+  | cons st rest ih =>
+    intro win t hr hb hmax hv
+    obtain ⟨arr, pos⟩ := st
+    obtain ⟨h1, h2, h3⟩ := hv
+    have r := C07_render win t arr pos hr hb hmax h1 h2
+    obtain ⟨i1, i2, i3, i4, i5⟩ := ih _ _ r.rel r.bg (by rw [r.height]; exact hmax) h3
+    have hcut : t.scrollback.length + win.top.toNat ≤ (full t).length := by
+      rw [full_length]; have := hr.top.2; omega
+    have hmono : t.scrollback.length + win.top.toNat ≤
+        (exec t (renderCursorAware win t.h t.w arr pos).2.1).scrollback.length +
+          (renderCursorAware win t.h t.w arr pos).1.top.toNat := by
+      rw [r.scrolled, r.origin]; omega
+    have hstep : (full (exec t (renderCursorAware win t.h t.w arr pos).2.1)).take (t.scrollback.length + win.top.toNat)
+        = (full t).take (t.scrollback.length + win.top.toNat) := by
+      rw [r.shown, List.append_assoc, List.take_append_of_le_length (by rw [List.length_take]; omega),
+        List.take_take, Nat.min_self]
+    refine ⟨i1, i2, by rw [C07.run, i3, r.height], ?_, by rw [C07.run]; omega⟩
+    rw [C07.run]
+    have := congrArg (List.take (t.scrollback.length + win.top.toNat)) i4
+    rw [List.take_take, List.take_take, Nat.min_eq_left hmono] at this
+    rw [this, hstep]
+
+/-! ### leaving the context -/
+
+/-- `__exit__` touches only rows from the cursor row down (below it when keep_last_line is set); when the cursor is
+    on the bottom row and keep_last_line is set the screen scrolls one line (the top row goes to scrollback, nothing
+    is lost) and the new bottom row is blank. -/
+theorem C07_exit (win : CAWin) (t : Term) (hr : t.r < t.h) (hbg : t.g.bg = none) (hmain : t.alt = none) :
+    (win.keepLastLine = false →
+      (exec t (cursorAwareExit win)).scrollback = t.scrollback ∧
+      (∀ r c, r < t.r → (exec t (cursorAwareExit win)).grid r c = t.grid r c) ∧
+      (∀ r c, t.r ≤ r → (exec t (cursorAwareExit win)).grid r c = blank)) ∧
+    (win.keepLastLine = true → t.r + 1 < t.h →
+      (exec t (cursorAwareExit win)).scrollback = t.scrollback ∧
+      (∀ r c, r ≤ t.r → (exec t (cursorAwareExit win)).grid r c = t.grid r c) ∧
+      (∀ r c, t.r < r → (exec t (cursorAwareExit win)).grid r c = blank)) ∧
+    (win.keepLastLine = true → t.r + 1 = t.h →
+      (exec t (cursorAwareExit win)).scrollback = t.scrollback ++ [t.row 0] ∧
+      (∀ r c, r + 1 < t.h → (exec t (cursorAwareExit win)).grid r c = t.grid (r + 1) c) ∧
+      (∀ r c, t.h ≤ r + 1 → (exec t (cursorAwareExit win)).grid r c = blank)) ∧
+    (exec t (cursorAwareExit win)).cursorVisible = (if win.hideCursor then true else t.cursorVisible) ∧
+    (exec t (cursorAwareExit win)).h = t.h ∧ (exec t (cursorAwareExit win)).w = t.w := by
+  have her : (' ', ({ bg := t.g.bg } : Eff)) = blank := by rw [hbg]; rfl
+  refine ⟨?_, ?_, ?_, ?_, ?_, ?_⟩
+  · intro hk
+    refine ⟨?_, ?_, ?_⟩
+    · cases hh : win.hideCursor <;> simp [cursorAwareExit, hk, hh, Term.step]
+    · intro r c hlt
+      cases hh : win.hideCursor <;> simp [cursorAwareExit, hk, hh, Term.step, Term.erased] <;> (repeat' split) <;> intros <;> first | rfl | exact her | (exfalso; omega)
+    · intro r c hle
+      cases hh : win.hideCursor <;> simp [cursorAwareExit, hk, hh, Term.step, Term.erased, her] <;> (repeat' split) <;> intros <;> first | rfl | exact her | (exfalso; omega)
+  · intro hk hlt
+    refine ⟨?_, ?_, ?_⟩
+    · cases hh : win.hideCursor <;> simp [cursorAwareExit, hk, hh, Term.step, Term.index, hlt]
+    · intro r c hle
+      cases hh : win.hideCursor <;> simp [cursorAwareExit, hk, hh, Term.step, Term.index, hlt, Term.erased] <;> (repeat' split) <;> intros <;> first | rfl | exact her | (exfalso; omega)
+    · intro r c hgt
+      cases hh : win.hideCursor <;> simp [cursorAwareExit, hk, hh, Term.step, Term.index, hlt, Term.erased, her] <;> (repeat' split) <;> intros <;> first | rfl | exact her | (exfalso; omega)
+  · intro hk heq
+    have hnlt : ¬ (t.r + 1 < t.h) := by omega
+    refine ⟨?_, ?_, ?_⟩
+    · cases hh : win.hideCursor <;> simp [cursorAwareExit, hk, hh, Term.step, Term.index, hnlt, Term.scrollUp, hmain]
+    · intro r c hlt
+      cases hh : win.hideCursor <;>
+        simp [cursorAwareExit, hk, hh, Term.step, Term.index, hnlt, Term.scrollUp, Term.erased, hlt] <;> (repeat' split) <;> intros <;> first | rfl | exact her | (exfalso; omega)
+    · intro r c hge
+      have : ¬ (r + 1 < t.h) := by omega
+      cases hh : win.hideCursor <;>
+        simp [cursorAwareExit, hk, hh, Term.step, Term.index, hnlt, Term.scrollUp, Term.erased, her, this]
+  · cases hh : win.hideCursor <;> cases hk : win.keepLastLine <;>
+      simp [cursorAwareExit, hk, hh, Term.step, Term.index, Term.scrollUp] <;> split <;> rfl
+  · cases hh : win.hideCursor <;> cases hk : win.keepLastLine <;>
+      simp [cursorAwareExit, hk, hh, Term.step, Term.index, Term.scrollUp] <;> split <;> rfl
+  · cases hh : win.hideCursor <;> cases hk : win.keepLastLine <;>
+      simp [cursorAwareExit, hk, hh, Term.step, Term.index, Term.scrollUp] <;> split <;> rfl
+
+
+/-! ### entering the context -/
+
+theorem C07.chars_map_char (l : List Char) : C18.chars (l.map Read.char) = l := by
+  induction l with
+  | nil => rfl
+  | cons x xs ih => simp [C18.chars, ih]
+
+theorem C07.sane_ascii : C18.SaneDigits Spec.digitVal := ⟨by decide, by decide, by decide, by decide⟩
+
+/-- `__enter__`: the window asks the terminal where the cursor is (`ESC[6n`); the terminal's own answer, read back
+    through `get_cursor_position`, makes `top_usable_row` the terminal's cursor row (whatever that row and column are),
+    leaves nothing unread and calls no callback. -/
+theorem C07_enter (win : CAWin) (t : Term) (cb : Bool) :
+    ∃ reply, (exec t [.dsr]).replies = t.replies ++ [reply] ∧
+      (cursorAwareEnter Spec.digitVal cb win (reply.map Read.char)).map (fun x => (x.1, x.2.1)) =
+        some (.ok { win with top := (t.r : Int) }, [TermOp.dsr] ++ (if win.hideCursor then [TermOp.hide] else [])) := by
+  refine ⟨[Spec.ESC, '['] ++ decimal (t.r + 1) ++ [';'] ++ decimal (t.c + 1) ++ ['R'], rfl, ?_⟩
+  have h1 := C18_decimal (t.r + 1)
+  have h2 := C18_decimal (t.c + 1)
+  have hp := C18_parse Spec.digitVal sane_ascii cb [] [Curtsies.ESC, '['] (decimal (t.r + 1)) (decimal (t.c + 1))
+    (([Curtsies.ESC, '['] ++ decimal (t.r + 1) ++ [';'] ++ decimal (t.c + 1)).map Read.char) []
+    (Or.inl rfl) h1.1 h2.1 (by
+      intro a b c h hrs
+      obtain ⟨csi, d1, d2, _, _, _, e⟩ := hrs
+      have : b = [] := by
+        have := congrArg List.length h
+        simp at this
+        cases b with
+        | nil => rfl
+        | cons x xs => simp at this; omega
+      rw [this] at e
+      have := congrArg List.length e
+      simp at this)
+    (by rw [chars_map_char]; simp) (by simp)
+  have e : ([Spec.ESC, '['] ++ decimal (t.r + 1) ++ [';'] ++ decimal (t.c + 1) ++ ['R']).map Read.char =
+      (([Curtsies.ESC, '['] ++ decimal (t.r + 1) ++ [';'] ++ decimal (t.c + 1)).map Read.char) ++ [Read.char 'R'] ++ [] := by
+    simp [Spec.ESC, Curtsies.ESC]
+  unfold cursorAwareEnter
+  rw [e, hp, h1.2, h2.2]
+  simp
 
 end Curtsies
